@@ -20,7 +20,7 @@ RULE = ("(a) every command class is constructed over comm 0..255, counts 1..125,
         "command class, argument class) tuples + distinct transaction ids seen")
 ASSUMPTIONS = ["the decoders in refcodec follow the Modbus specification (big-endian fields, CRC lo-hi, MBAP length = bytes "
                "that follow) and the AA55 framing stated in the property"]
-MUST = ["named_reads_of_calculated_ids", "answers_with_foreign_transaction_id", "dt_export_limit_by_model_line", "es_setter_sequences_decoded", "auto_detected_object_frames", "aa55_over_both_transports", "overlapping_polls_txids", "rmw_with_padded_read_answers", "named_single_reads", "dt_fallback_model_query", "tcp_connect_failures_between_requests", "tcp_session_dropped_between_requests", "contract_eval_create_modbus_rtu_request", "contract_eval_create_modbus_tcp_request",
+MUST = ["connect_with_family_and_comm_addr", "clock_writes_checked", "named_reads_of_calculated_ids", "answers_with_foreign_transaction_id", "dt_export_limit_by_model_line", "es_setter_sequences_decoded", "auto_detected_object_frames", "aa55_over_both_transports", "overlapping_polls_txids", "rmw_with_padded_read_answers", "named_single_reads", "dt_fallback_model_query", "tcp_connect_failures_between_requests", "tcp_session_dropped_between_requests", "contract_eval_create_modbus_rtu_request", "contract_eval_create_modbus_tcp_request",
         "contract_eval_create_modbus_rtu_multi_request", "contract_eval_create_modbus_tcp_multi_request",
         "txid_wraps", "negative_values", "aa55_negative_values", "wire_ops_matched", "wire_retransmissions",
         "classes_constructed", "protocol_object_commands"]
@@ -469,6 +469,71 @@ def concurrent_and_padded(spec, part):
                     f"the register map asks for {want}", case)
             else:
                 part.count("dt_export_limit_by_model_line")
+    # connect(host, port, family, comm_addr, ...): the object handed out addresses every frame to THAT unit
+    for fam in ("ET", "DT", "EH", "MS"):
+        for port in (8899, 502):
+            for comm in (0x21, 0xFE, 0x01):
+                simfam = "ET" if fam in ("ET", "EH") else "DT"
+                sim = models.family_sim(simfam)
+                st = {}
+
+                async def flow(loop):
+                    inv = await g.connect("inv0", port, fam, comm, 1, 0)
+                    st["n0"] = 0
+                    await inv.read_runtime_data()
+                    try:
+                        await inv.read_setting("grid_export_limit")
+                    except (ValueError, g.InverterError):
+                        pass
+                run = engine.run_custom({("inv0", port): sim}, flow, vtime_cap=600, tx_cap=600)
+                part.evaluations += 1
+                framing = "tcp" if port == 502 else "rtu"
+                case = {"concpad": True}
+                if run.stop or run.error is not None:
+                    bad(part, framing, "named-reads-failed", f"connect(family={fam!r}, comm_addr={comm}) port {port}: {run.stop or repr(run.error)}", case)
+                    continue
+                wrong = [r for r in sim.log if r[2]["comm"] != comm]
+                if wrong or not sim.log:
+                    bad(part, framing, "request-carries-wrong-arguments",
+                        f"connect('inv0', {port}, family={fam!r}, comm_addr=0x{comm:02x}): {len(wrong)} of {len(sim.log)} frames are addressed to unit "
+                        f"0x{wrong[0][2]['comm']:02x}" if wrong else "no frame seen", case)
+                else:
+                    part.count("connect_with_family_and_comm_addr")
+    # the inverter clock: write_setting('time', t) carries year-2000, month, day, hour, minute, second of t - also when t has a sub-second
+    # part (datetime.now()) and at the ends of the ranges; every byte on the wire must be a possible clock value
+    import datetime as _dt
+    stamps = [_dt.datetime(2024, 5, 17, 12, 30, 59, 600000), _dt.datetime(2024, 12, 31, 23, 59, 59, 999999), _dt.datetime(2025, 1, 1, 0, 0, 0, 1),
+              _dt.datetime(2024, 2, 29, 7, 8, 9, 500000), _dt.datetime(2030, 6, 15, 23, 59, 58, 499999), _dt.datetime(2024, 5, 17, 12, 30, 15)]
+    for fam, port in (("ET", 8899), ("ET", 502), ("DT", 8899), ("DT", 502), ("ES", 8899)):
+        for t_ in stamps:
+            sim = models.family_sim(fam)
+            st = {}
+
+            async def flow(loop):
+                inv = models.family_cls(g, fam)("inv0", port, 0, 1, 0)
+                await inv.read_device_info()
+                st["w0"], st["a0"] = len(sim.writes), len(getattr(sim, "aa55_log", []))
+                await inv.write_setting("time", t_)
+            run = engine.run_custom({("inv0", port): sim}, flow, vtime_cap=600, tx_cap=600)
+            part.evaluations += 1
+            framing = "aa55" if fam == "ES" else ("tcp" if port == 502 else "rtu")
+            case = {"concpad": True}
+            if run.stop or run.error is not None:
+                bad(part, framing, "named-reads-failed", f"{fam} port {port}: write_setting('time', {t_!r}) ended with {run.stop or repr(run.error)}", case)
+                continue
+            want = bytes([t_.year - 2000, t_.month, t_.day, t_.hour, t_.minute, t_.second])
+            if fam == "ES":
+                sent = [pl for (_t, _n, c, pl) in sim.aa55_log[st["a0"]:] if c == "0302"]
+                got = bytes(sent[0][:6]) if sent else None
+            else:
+                ws = sim.writes[st["w0"]:]
+                got = b"".join(v.to_bytes(2, "big") for v in ws[0][2])[:6] if ws else None
+            if got != want:
+                bad(part, framing, "request-carries-wrong-arguments",
+                    f"{fam} port {port}: write_setting('time', {t_.isoformat()}) put the clock bytes {got.hex() if got else None} on the wire, the argument is "
+                    f"{want.hex()} (year-2000, month, day, hour, minute, second)", case)
+            else:
+                part.count("clock_writes_checked")
     # every ES setter sequence (each operation mode on the three firmware generations, export limit, DoD, eco groups, raw settings):
     # all AA55 / Modbus frames the object puts on the wire must decode (header, length byte = payload length, checksum / CRC)
     for transport_port in (8899, 502):
